@@ -34,6 +34,47 @@ def murmur64a_py(data, seed):
     return h
 
 
+def murmur64b_py(data, seed):
+    """MurmurHash64B, transcribed from Appleby's published MurmurHash2 (64-bit hash for 32-bit platforms)"""
+    M, R, M32 = 0x5bd1e995, 24, 0xFFFFFFFF
+    n = len(data)
+    h1 = (seed ^ n) & M32
+    h2 = 0
+    pos = 0
+    def mix(h, k):
+        k = (k * M) & M32
+        k ^= k >> R
+        k = (k * M) & M32
+        return ((h * M) & M32) ^ k
+    while n >= 8:
+        k1, k2 = struct.unpack_from("<II", data, pos)
+        pos += 8
+        h1 = mix(h1, k1)
+        h2 = mix(h2, k2)
+        n -= 8
+    if n >= 4:
+        (k1,) = struct.unpack_from("<I", data, pos)
+        pos += 4
+        h1 = mix(h1, k1)
+        n -= 4
+    if n >= 3:
+        h2 ^= data[pos + 2] << 16
+    if n >= 2:
+        h2 ^= data[pos + 1] << 8
+    if n >= 1:
+        h2 ^= data[pos]
+        h2 = (h2 * M) & M32
+    h1 ^= h2 >> 18
+    h1 = (h1 * M) & M32
+    h2 ^= h1 >> 22
+    h2 = (h2 * M) & M32
+    h1 ^= h2 >> 17
+    h1 = (h1 * M) & M32
+    h2 ^= h1 >> 19
+    h2 = (h2 * M) & M32
+    return (h1 << 32) | h2
+
+
 def fold_py(seed, pieces):
     h = seed
     for p in pieces:
@@ -71,6 +112,13 @@ def gen_cases(c):
             op = rng.choice(("H", "N"))
             lines.append("%s %d %s" % (op, seed, hx(b)))
             meta.append((op, seed, b, None))
+    # MurmurHash64B (what MurmurHashNative would be with 4-byte pointers): every length 0..40, samples beyond
+    for n in list(range(0, 41)) + [63, 64, 65, 100, 255, 256, 257]:
+        for kind in ("rand", "hi"):
+            b = content(n, kind)
+            seed = rng.choice(seeds)
+            lines.append("B %d %s" % (seed, hx(b)))
+            meta.append(("B", seed, b, None))
     # every start alignment (mod 16) x tail length, a few block counts (the ASan/UBSan pass of the thorough tier sees misaligned loads)
     for al in range(16):
         for n in (0, 1, 7, 8, 9, 15, 16, 17, 33):
@@ -101,6 +149,8 @@ def gen_cases(c):
 
 def expected(m):
     op, seed, data, n = m
+    if op == "B":
+        return murmur64b_py(data, seed)
     if op in ("H", "N", "M", "A"):
         return murmur64a_py(data, seed)
     if op == "F":
@@ -135,6 +185,8 @@ def meta_of_line(l):
         return ("M", int(t[1]), b(t[3])[:int(t[2])], None)
     if t[0] == "A":
         return ("A", int(t[2]), b(t[3]), None)
+    if t[0] == "B":
+        return ("B", int(t[1]), b(t[2]), None)
     if t[0] == "F":
         return ("F", int(t[1]), [b(x) for x in t[2:]], None)
     return ("S", SHARD_SEED, [b(x) for x in t[2:]], int(t[1]))
@@ -179,7 +231,7 @@ def main(argv):
             meta.insert(0, meta_of_line(case))
     for l, m in zip(lines, meta):
         op, seed, data, n = m
-        if op in ("H", "N", "M", "A"):
+        if op in ("H", "N", "M", "A", "B"):
             c.count(l, nontrivial=len(data) > 0, bucket="%s/blocks=%d/tail=%d" % (op, min(len(data) // 8, 3), len(data) % 8))
         else:
             c.count(l, nontrivial=len(data) > 0, bucket="%s/pieces=%d" % (op, len(data)))
@@ -201,11 +253,11 @@ def main(argv):
         for l, m, o in zip(lines, meta, out):
             want = str(expected(m))
             if o != want:
-                what = {"H": "MurmurHash64A", "N": "MurmurHashNative", "A": "MurmurHash64A/Native at a given start alignment", "M": "MurmurHash64A(len shorter than buffer)",
+                what = {"H": "MurmurHash64A", "N": "MurmurHashNative", "A": "MurmurHash64A/Native at a given start alignment", "B": "MurmurHash64B", "M": "MurmurHash64A(len shorter than buffer)",
                         "F": "HashCallback fold", "S": "shard index"}[m[0]]
-                c.violation("%s: %s gave %s, reference MurmurHash64A%s says %s (case %s)" % (
-                    "hash-value" if m[0] in "HNMA" else ("fold" if m[0] == "F" else "shard-index"), what, o,
-                    " left fold" if m[0] in "FS" else "", want, l[:160]),
+                c.violation("%s: %s gave %s, reference %s says %s (case %s)" % (
+                    "hash-value" if m[0] in "HNMAB" else ("fold" if m[0] == "F" else "shard-index"), what, o,
+                    "MurmurHash64B" if m[0] == "B" else ("MurmurHash64A left fold" if m[0] in "FS" else "MurmurHash64A"), want, l[:160]),
                     {"op": what, "case": l, "impl": o, "expected": want, "how": "echo '%s' | hx_murmur" % l[:300]})
 
     # ASan/UBSan build of the harness: exact-size heap buffers and every start alignment (over-reads, misaligned loads)
@@ -278,7 +330,7 @@ def main(argv):
     # order_independent_hash
     oih = []
     for _ in range(12 if c.volume == "quick" else 100):
-        ls = [bytes(rng.choice(b"abcdefgh \t\x80\xff") for _ in range(rng.choice((0, 1, 5, 8, 13, 30)))) for _ in range(rng.randrange(0, 9))]
+        ls = [bytes(rng.choice(b"abcdefgh \t\x80\xff") for _ in range(rng.choice((0, 1, 5, 8, 13, 30, 30, 2000, 70001)))) for _ in range(rng.randrange(0, 9))]
         data = b"".join(l + b"\n" for l in ls)
         st, so, se = run_tool([repo_bin("order_independent_hash")], stdin=data, timeout=60)
         want = ("%d\n" % (sum(murmur64a_py(l, 0) for l in ls) & MASK)).encode()
@@ -287,7 +339,8 @@ def main(argv):
         if st != 0 or so != want:
             c.violation("tool/order_independent_hash: printed %r (status %s), reference sum of line hashes is %r" % (so[:40], st, want),
                         {"op": "order_independent_hash", "stdin_hex": hexs(data), "stdout": so[:80].decode("latin1"), "expected": want.decode()})
-        oih.append(("O " + " ".join(hx(l) for l in ls), so.decode("latin1").strip()))
+        if sum(len(l) for l in ls) < 400:
+            oih.append(("O " + " ".join(hx(l) for l in ls), so.decode("latin1").strip()))
     if drv is not None:
         mlines = [x for x, _ in small_model + oih]
         rc, mo2, err = run_lines(drv, mlines)
@@ -306,6 +359,10 @@ def main(argv):
         for _ in range(40 if c.volume == "quick" else 400):
             words = [bytes(rng.choice(b"abcdefxyz\xc3\xa9") for _ in range(rng.randrange(1, 12))) for _ in range(4)]
             ls.append(b" ".join(words))
+        for n in (100, 1000, 9000, 70000):          # long keys: every byte of the key counts
+            w = bytes(rng.choice(b"abcdefxyz") for _ in range(n))
+            ls.append(b"k " + w + b" " + w[:7] + b" z")
+            ls.append(b"k " + w[:-1] + b"Q " + w[:7] + b" z")
         outs = [os.path.join(SCRATCH, "shard%d" % i) for i in range(nsh)]
         for o in outs:
             if os.path.exists(o):
